@@ -152,6 +152,7 @@ pub enum Keyword {
     Array,
     Assert,
     Assume,
+    AssumeGuarantee,
     Attribute,
     Begin,
     Block,
@@ -224,6 +225,7 @@ pub enum Keyword {
     Rem,
     Report,
     Restrict,
+    RestrictGuarantee,
     Return,
     Rol,
     Ror,
